@@ -413,3 +413,36 @@ func HarnessC06AnchorWide() {
 	verif.Assume(e3 == nil)
 	verif.Assert(!uuid.Equal(ua, im.UUID()), "C06/anchor/temporal-never-equals-immutable")
 }
+
+// C06 (blank nodes): the ids of blank nodes are UUID text in practice
+// (node.NewBlankNode); two blank nodes whose ids are that text with one
+// symbolic hexadecimal digit each (either case, at the start, in the middle or
+// at the end) have the same UUID exactly when the ids are
+// equal - case included.
+func HarnessC06BlankNode() {
+	const tmpl = "6ba7b810-9dad-11d1-80b4-00c04fd430c8"
+	positions := []int{0, 10, 35}
+	mk := func(name string) (*node.Node, string) {
+		i := positions[verif.Choice(name+".pos", len(positions))]
+		x := verif.Byte(name + ".x")
+		// a hexadecimal digit in either case (with any other character the id is not
+		// UUID text, and the abstraction of SHA-1 as an uninterpreted function says
+		// nothing about a hash output against bytes that are not a hash output)
+		verif.Assume(verif.Or(verif.And(x >= '0', x <= '9'), verif.Or(verif.And(x >= 'a', x <= 'f'), verif.And(x >= 'A', x <= 'F'))))
+		id := tmpl[:i] + string([]byte{x}) + tmpl[i+1:]
+		if verif.Choice(name+".urn", 2) == 1 {
+			id = "urn:uuid:" + id
+		}
+		n, err := node.NewNodeFromStrings("/_", id)
+		verif.Assume(err == nil)
+		return n, id
+	}
+	a, ia := mk("a")
+	b, ib := mk("b")
+	var ua, ub uuid.UUID
+	if !noPanic("C06/blank/uuid-defined", func() { ua, ub = a.UUID(), b.UUID() }) {
+		return
+	}
+	verif.Reach("uuids")
+	verif.Assert(uuid.Equal(ua, ub) == (ia == ib), "C06/blank/uuid-iff-equal")
+}
